@@ -214,6 +214,8 @@ func txnSQL(a Action) string {
 		return fmt.Sprintf("INSERT INTO %s VALUES (%d, '%s');", t, k, textH)
 	case "selectfn":
 		return "SELECT * FROM CSV(',', " + t + ", 'UTF8');"
+	case "selectinline":
+		return "SELECT * FROM CSV_INLINE(',', " + t + ");"
 	case "setenc":
 		return fmt.Sprintf("ALTER TABLE %s SET ENCODING TO SJIS;", t)
 	case "createas":
@@ -328,7 +330,7 @@ func txnExec(p *sut.Proc, a Action) Out {
 			return Out{K: "val", Vals: v[2:]}
 		}
 		return Out{K: "val", Vals: v}
-	case "select", "selectsub", "selectfn":
+	case "select", "selectsub", "selectfn", "selectinline":
 		r := p.Exec(txnSQL(a))
 		if r.Err != "" {
 			return Out{K: "err", E: errClass(r), Vals: []string{}}
@@ -496,7 +498,7 @@ func txnRandom(r *core.Run, hk int, flavour string) (Action, []Action) {
 			}
 		case x < 6:
 			if t != "tt" && rng.Intn(3) == 0 {
-				acts = append(acts, txnA("selectfn", t, 0, 0))
+				acts = append(acts, txnA([]string{"selectfn", "selectinline"}[rng.Intn(2)], t, 0, 0))
 				break
 			}
 			acts = append(acts, txnA([]string{"selectsub", "selectagg"}[rng.Intn(2)], t, 0, 0))
@@ -554,7 +556,7 @@ func txnRandom(r *core.Run, hk int, flavour string) (Action, []Action) {
 				acts = append(acts, txnA("select", t, 0, 0))
 			case "env":
 				f := []string{"f1", "f2"}[rng.Intn(2)]
-				acts = append(acts, txnA("env", f, 0, 0), txnA([]string{"select", "select", "selectfn", "selectsub", "selectpath"}[rng.Intn(5)], f, 0, 1+rng.Intn(4)))
+				acts = append(acts, txnA("env", f, 0, 0), txnA([]string{"select", "select", "selectfn", "selectsub", "selectpath", "selectinline"}[rng.Intn(6)], f, 0, 1+rng.Intn(4)))
 			default:
 				acts = append(acts, txnA("select", t, 0, 0))
 			}
